@@ -13,7 +13,7 @@ NOT_APPLICABLE = {}
 # axes added to the lattices after the waves of seeded changes (DESIGN.md 7.5 / 7.6); appended to the note of the check
 EXTRA = {
     "C01": "Also: orders 6-10 (12 thorough) with a reduced menu of mode lists; negative modes for unfold/fold; one caller-owned shape list reused across the calls of a case.",
-    "C02": "Also: depth-2 call histories sharing argument objects; complex weights on real matrices; NumPy-integer indices; sample_khatri_rao with drawn indices (consistency only).",
+    "C02": "Also: depth-2 call histories sharing argument objects; complex weights on real matrices; NumPy-integer indices; sample_khatri_rao with drawn indices (consistency only); multi_mode_dot mode lists that name a mode twice.",
     "C03": "Also: factors of mixed real/complex kinds; weighting (non 0/1) masks; 2-D weights and partially invalid PARAFAC2 projections must be rejected; rejection demanded of every conversion of a plain PARAFAC2 tuple (tensor, slices, single slice, unfolded, vec) and of cp_to_vec.",
     "C04": "Also: input decomposition unchanged with copy=True; ragged generic slices for SVD compression; per-factor scales 1e-19..1e+19; mdotchain: every sequence of 2 (thorough 3) mode products on ONE CPTensor/TuckerTensor object (function/method x copy x operand that changes the mode size), continuing on the returned object or on the argument a copy=False step updated in place.",
     "C05": "Also: graded low-rank spectra; data units 1e-9 / 1e+9.",
